@@ -19,7 +19,8 @@ RULE = (
     "instructions decides it). Distinct = distinct (models, kernel)."
 )
 ASSUMPTIONS = [
-    "cases whose dependency graph disagrees with the reference relation are C03's business and skipped here (counted)",
+    "cases whose edge set disagrees with the reference relation are C03's business and skipped here (counted); "
+    "edge weights and load stages are taken from the generated specification, not from OSACA",
     "where an edge has two admissible weights the weight OSACA reports (validated against the candidates) is used",
 ]
 MIN_NONTRIVIAL = {"quick": 300, "thorough": 3000}
@@ -61,6 +62,9 @@ def check_cp(kernel, dg, nodes_lat, edges, loadnode, first_line, tag):
     if total > ref + 1e-9:
         raise Violation("cp-over:" + tag, "reported critical path is longer than the longest dependency chain",
                         total, ref)
+    if any(x.mnemonic is None for x in cp):
+        raise Violation("cp-noninstruction:" + tag, "a label/comment/directive line is marked as critical path",
+                        [x.line for x in cp if x.mnemonic is None], None)
     lines = [x.line_number - first_line - 1 for x in cp]
     if lines != sorted(lines) or len(set(lines)) != len(lines):
         raise Violation("cp-order:" + tag, "critical-path lines not in program order / repeated", lines, None)
@@ -83,17 +87,29 @@ def check_case(case):
     from checks import c03
 
     kernel, dg, mm, sem = c03.runner().build(case)
-    try:
-        E, info, f = c03.compare_graph(case, dg)
-    except Violation:
-        return {"nontrivial": False, "classes": ["skipped-graph-disagreement(C03)"]}
+    E, info = deps.ref_edges(case)
+    unc = deps.uncertain_pairs(case, info)
     got, loadnodes = c03.observed_edges(case, dg)
     nodes_lat = {i: inf["lat"] for i, inf in enumerate(info) if inf is not None}
     for i, inf in enumerate(info):
         if inf is None:
             nodes_lat[i] = 0.0
-    # reference relation E with the admissible weight OSACA chose; uncertain pairs as observed
-    edges = {e: got[e] for e in got}
+    # reference relation and weights from the generated specification; where two weights are admissible for one
+    # pair the one OSACA reports (if admissible) is used; store->load pairs the reference does not decide
+    # (AArch64 write-back) are taken as observed
+    edges = {}
+    for e, ws in E.items():
+        if e in unc:
+            continue
+        w = got.get(e)
+        edges[e] = w if (w is not None and any(abs(w - c) < 1e-9 for c in ws)) else (min(ws) if len(ws) > 1
+                                                                                      else next(iter(ws)))
+    for e in unc:
+        if e in got:
+            edges[e] = got[e]
+    if set(edges) != set(got):
+        # edge sets differ: C03 reports that; the longest chain is not comparable
+        return {"nontrivial": False, "classes": ["skipped-edge-set-disagreement(C03)"]}
     loadnode = {i: inf["load"] for i, inf in enumerate(info) if inf is not None and inf["load"] is not None
                 and inf["has_load_node"]}
     total, ref, single, load_head, n = check_cp(kernel, dg, nodes_lat, edges, loadnode,
